@@ -466,6 +466,26 @@ def rule_r4(ctx):
                             f"{fi.where()} line {cont.lineno}: a free / nonlocal name is passed over when `{g_txt}`: it is not recorded in the owner's inner_nonlocal_names, so the owner keeps it as a plain variable while a sibling scope reads / writes the shared dict, or the other way round (a name that is free here only because a lambda or comprehension inside this function uses it has no namespace of its own to resolve it)",
                             where=fi.where(), what=f"{ci.name}|names-loop|skip@{cont.lineno}",
                         )
+                # the implicit `__class__` (PEP 3135) is free in EVERY scope inside a class that mentions
+                # `super` or `__class__` - methods, functions nested in methods, generator expressions,
+                # classes nested in methods - and it is local in no function (the cell belongs to the class,
+                # which the walk skips): it has to be passed over unconditionally, or the walk over the
+                # enclosing namespaces runs into the global namespace (AssertionError)
+                rr.instances += 1
+                unconditional = False
+                for cont, guards in own_continues(lp.body, []):
+                    mentions = [g for g in guards if any(isinstance(k, ast.Constant) and k.value == "__class__" for k in ast.walk(g))]
+                    if mentions and all(isinstance(g, ast.Compare) and len(g.ops) == 1 and isinstance(g.ops[0], (ast.Eq, ast.In)) for g in guards):
+                        unconditional = True
+                what_c = f"{ci.name}|names-loop|class-cell"
+                if unconditional:
+                    rr.ok(what_c, sample={"rule": "C06-R4", "loop": f"{ci.name}.{fi.name}", "verdict": "__class__ is skipped in every scope"})
+                else:
+                    rr.fail(
+                        f"C06-R4|{ci.name}|names-loop|class-cell-not-skipped",
+                        f"{fi.where()}: the loop that links free names to their owner does not pass over `__class__` unconditionally (only under an extra condition, or not at all). A function nested in a method, a generator expression in a method or a class nested in a method that mentions `super`/`__class__` has it as a free name too; no enclosing FUNCTION owns it, so the search reaches the global namespace: `list(super(B, self).m() for _ in r)` in a method stops the conversion with AssertionError",
+                        where=fi.where(), what=what_c,
+                    )
                 exits = own_exits(lp.body)
                 if exits:
                     e = exits[0]
